@@ -638,6 +638,90 @@ struct Value {
         object_.Insert(key.First(), key.Length(), Memory::Move(val));
     }
 
+    // Numbers of different kinds (natural, integer, real) compare by their numeric value: -1, 0 or 1.
+    // (2: not comparable - a NaN; the callers fall back to the order of the kinds.)
+    static int compareNumbers(const Value &left, const Value &right) noexcept {
+        switch (left.Type()) {
+            case ValueType::UIntLong: {
+                const SizeT64 u = left.number_.Natural;
+
+                if (right.Type() == ValueType::IntLong) {
+                    const SizeT64I i = right.number_.Integer;
+                    return ((i < 0) ? 1 : ((u < SizeT64(i)) ? -1 : ((u > SizeT64(i)) ? 1 : 0)));
+                }
+
+                return compareNaturalAndReal(u, right.number_.Real);
+            }
+
+            case ValueType::IntLong: {
+                const SizeT64I i = left.number_.Integer;
+
+                if (right.Type() == ValueType::UIntLong) {
+                    const SizeT64 u = right.number_.Natural;
+                    return ((i < 0) ? -1 : ((SizeT64(i) < u) ? -1 : ((SizeT64(i) > u) ? 1 : 0)));
+                }
+
+                return compareIntegerAndReal(i, right.number_.Real);
+            }
+
+            default: {
+                const double d = left.number_.Real;
+                const int    r = ((right.Type() == ValueType::UIntLong) ? compareNaturalAndReal(right.number_.Natural, d)
+                                                                         : compareIntegerAndReal(right.number_.Integer, d));
+                return ((r == 2) ? 2 : -r);
+            }
+        }
+    }
+
+    static int compareNaturalAndReal(const SizeT64 u, const double d) noexcept {
+        if (d != d) {
+            return 2;
+        }
+
+        if (d < 0.0) {
+            return 1;
+        }
+
+        if (d >= 18446744073709551616.0) {
+            return -1;
+        }
+
+        const SizeT64 whole = SizeT64(d);
+
+        if (u != whole) {
+            return ((u < whole) ? -1 : 1);
+        }
+
+        return ((d > double(whole)) ? -1 : 0);
+    }
+
+    static int compareIntegerAndReal(const SizeT64I i, const double d) noexcept {
+        if (d != d) {
+            return 2;
+        }
+
+        if (d >= 9223372036854775808.0) {
+            return -1;
+        }
+
+        if (d < -9223372036854775808.0) {
+            return 1;
+        }
+
+        const SizeT64I whole = SizeT64I(d);
+
+        if (i != whole) {
+            return ((i < whole) ? -1 : 1);
+        }
+
+        return ((d > double(whole)) ? -1 : ((d < double(whole)) ? 1 : 0));
+    }
+
+    inline bool isNumberType() const noexcept {
+        const ValueType type = Type();
+        return ((type == ValueType::UIntLong) || (type == ValueType::IntLong) || (type == ValueType::Double));
+    }
+
     inline bool operator<(const Value &val) const noexcept {
         const ValueType type = Type();
 
@@ -684,6 +768,14 @@ struct Value {
 
         if (val.Type() == ValueType::ValuePtr) {
             return operator<(*(val.value_));
+        }
+
+        if (isNumberType() && val.isNumberType()) {
+            const int order = compareNumbers(*this, val);
+
+            if (order != 2) {
+                return (order < 0);
+            }
         }
 
         return (type < val.Type());
@@ -737,6 +829,14 @@ struct Value {
             return operator>(*(val.value_));
         }
 
+        if (isNumberType() && val.isNumberType()) {
+            const int order = compareNumbers(*this, val);
+
+            if (order != 2) {
+                return (order > 0);
+            }
+        }
+
         return (type > val.Type());
     }
 
@@ -786,6 +886,14 @@ struct Value {
 
         if (val.Type() == ValueType::ValuePtr) {
             return operator<=(*(val.value_));
+        }
+
+        if (isNumberType() && val.isNumberType()) {
+            const int order = compareNumbers(*this, val);
+
+            if (order != 2) {
+                return (order <= 0);
+            }
         }
 
         return (type < val.Type());
@@ -839,6 +947,14 @@ struct Value {
             return operator>=(*(val.value_));
         }
 
+        if (isNumberType() && val.isNumberType()) {
+            const int order = compareNumbers(*this, val);
+
+            if (order != 2) {
+                return (order >= 0);
+            }
+        }
+
         return (type > val.Type());
     }
 
@@ -888,6 +1004,14 @@ struct Value {
 
         if (val.Type() == ValueType::ValuePtr) {
             return operator==(*(val.value_));
+        }
+
+        if (isNumberType() && val.isNumberType()) {
+            const int order = compareNumbers(*this, val);
+
+            if (order != 2) {
+                return (order == 0);
+            }
         }
 
         return false;
